@@ -614,7 +614,7 @@ def run_c02(inst, seed, tid):
         Q = {"kind": "Quadratic"}
         if kind in ("quantile_linprog", "sqrtlasso_fixedpoint"):
             fi = False
-        if s in ("GramCD", "GramCD_acc", "FISTA", "PDCD_WS") or kind == "svc_sklearn":
+        if s in ("GramCD", "GramCD_acc", "GramCD_warm", "FISTA", "FISTA_warm", "PDCD_WS") or kind == "svc_sklearn":
             fi_s = False
         else:
             fi_s = fi
@@ -833,6 +833,19 @@ def _skglm_solve_reg(s, X, y, Q, pend, fi, st, al, l1r, positive):
         return _est_w(e, fi), e.stop_crit_ <= 10 * TOL
     if s == "AndersonCD_fixpoint":
         r = _run("AndersonCD", X, y, Q, pend, fi, st, ws_strategy="fixpoint")
+    elif s in ("GramCD_warm", "AndersonCD_warm", "FISTA_warm"):
+        # the optimum does not depend on where a solver starts: a consistent, far, dense start
+        rng = np.random.default_rng(17)
+        w0 = rng.standard_normal(X.shape[1] + (1 if fi and s == "AndersonCD_warm" else 0))
+        if positive:
+            w0 = np.abs(w0)
+        base_s = s.split("_")[0]
+        fi_s = fi and base_s == "AndersonCD"
+        Xw0 = X @ w0[:X.shape[1]] + (w0[-1] if fi_s else 0.0)
+        kw = dict(max_iter=20000) if base_s == "GramCD" else (dict(max_iter=100000, tol=1e-9) if base_s == "FISTA" else {})
+        r = _run(base_s, X, y, None if base_s == "GramCD" else Q, pend, fi_s, st, w_init=w0, Xw_init=Xw0, **kw)
+        if base_s == "FISTA":
+            r["reported"] = r["exc"] is None and r["crit"] < 1e-8
     elif s in ("GramCD", "GramCD_acc"):
         r = _run("GramCD", X, y, None, pend, False, st, use_acc=s == "GramCD_acc", greedy_cd=s == "GramCD", max_iter=20000)
     elif s == "FISTA":
